@@ -15,7 +15,7 @@ for d in sorted(os.listdir(sd)):
     if not os.path.exists(mp):
         continue
     m = json.load(open(mp))
-    rnd = {"": 1, "b": 2, "c": 3, "d": 4}[d[3:]]
+    rnd = {"": 1, "b": 2, "c": 3, "d": 4, "e": 5}[d[3:]]
     runs = m.get("checks", {}).get("runs", [])
     passes = sorted({r["pass"] for r in runs})
     first = [r for r in runs if r["pass"] == (passes[0] if passes else 0)]
@@ -52,7 +52,7 @@ head = """# Seeded changes
 Property-breaking changes written by fresh sub-agents that saw only the text of one property (plus, from the second
 round on, a one-sentence summary of the earlier changes to the same property, so that they would pick another
 mechanism) and a scratch `git worktree` of /repo under /tmp - nothing from /verif. `<id>` = first round, `<id>b`,
-`<id>c` = later rounds. Each directory holds
+`<id>c`, `<id>d`, `<id>e` = later rounds (round 5: six properties only). Each directory holds
 
 * `patch.diff` - the change (source only), applies to /repo with `git -C /repo apply`;
 * `demo_test.go` - the agent's demonstration (copy to `<demo_dir>/zz_seed_demo_test.go`, run pattern in `meta.json`);
